@@ -35,11 +35,30 @@ def run(tier, seed, replay=None):
     rep = Report(PROP, tier, seed)
     rep.rule = ("random operation sequences (1-12 ops) over monoidal and rigid diagrams grown "
                 "layer by layer, ~10% malformed requests; non-trivial = result of >= 2 boxes "
-                "built with at least one op other than id/then; distinct by token form")
+                "built with at least one op other than id/then; distinct by token form. "
+                "Semantic classes (circuit, zx, tensor, cartesian, biclosed): every box constructor "
+                "x flag combination placed in a grown diagram of its class, then the operation "
+                "battery (dagger, double dagger, >> / @ with its dagger, slices, reversed slices, "
+                "indexing, interchange sweep, normal_form, transposes, class extras) and random "
+                "histories over a pool of earlier results; non-trivial = result of >= 2 boxes that "
+                "is not a bare leaf; distinct by model request")
     rep.partial = ["parser/translator outputs (eager_parse, from_tk, from_pyzx, circuit2zx, "
-                   "tree2diagram) are covered by C13/C16/C17/C18 and the constructor monitor only"]
+                   "tree2diagram) are covered by C13/C16/C17/C18 and the constructor monitor only",
+                   "class-specific constructions of the semantic classes (Circuit/zx/tensor cups, "
+                   "caps, transposes, ansaetze, rewire, init_and_discard, cartesian Swap/Copy/"
+                   "Discard, biclosed fa..curry) are outside the model: oracle on their result, "
+                   "which is then handed to the model as an `mk` leaf; boxes of these classes are "
+                   "opaque generators for the model (dom/cod only), so the correspondence there is "
+                   "on dom, cod, box types, offsets and layers, not on box identity",
+                   "plain cat.Arrow (class cat) is oracle-only; the model's arrows are the layer "
+                   "arrows of diagrams"]
     rep.assumptions = ["box names/data are generator-chosen tokens (no names that collide with "
-                       "the derived names of Swap/Cup/Cap)"]
+                       "the derived names of Swap/Cup/Cap)",
+                       "a refusal (exception) is never counted against C01; refusals of modelled "
+                       "operations are compared with the model's refusals except where a box class "
+                       "has no dagger (tensor.Bubble, cartesian.Box, biclosed rule boxes), for "
+                       "biclosed `>>` (Over/Under equality is not symmetric) and for cartesian "
+                       "(its id/upgrade coerce types through PRO and refuse on their own)"]
     rep.lean = lean_obligations(PROP, thorough=(tier == "thorough"))
     n_cases = 400 if tier == "quick" else 30000
     rng = random.Random(seed)
@@ -278,6 +297,11 @@ def run(tier, seed, replay=None):
         except ImportError as exc:   # a generator module is missing: say so, do not fail
             rep.count("front_generators_unavailable:" + str(exc)[:60])
         rep.extra["front_end_calls"] = front
+        # ---- semantic diagram classes (circuit, zx, tensor, cartesian, biclosed, cat): every box
+        # constructor x flag combination, operation batteries and random histories; model
+        # correspondence by shape, C01's predicate on every value handed back
+        import semfam
+        rep.extra.update(semfam.run_streams(rep, drv, rng, tier, monitor_hits))
     finally:
         uninstall()
         drv.close()
